@@ -90,6 +90,10 @@ _PDFDOC_EXTRA = {"•": 0x80, "†": 0x81, "‡": 0x82, "…": 0x83, "—": 0x84
                  "ž": 0x9E, "€": 0xA0}
 
 
+# 0x18..0x1F: BREVE, CARON, MODIFIER CIRCUMFLEX, DOT ABOVE, DOUBLE ACUTE, OGONEK, RING ABOVE, SMALL TILDE
+_PDFDOC_ACCENTS = "\u02d8\u02c7\u02c6\u02d9\u02dd\u02db\u02da\u02dc"
+
+
 def pdfdoc_encode(s: str) -> Optional[bytes]:
     """PDFDocEncoding of a password, or None if it has no such encoding."""
     out = bytearray()
@@ -97,6 +101,12 @@ def pdfdoc_encode(s: str) -> Optional[bytes]:
         o = ord(ch)
         if ch in _PDFDOC_EXTRA:
             out.append(_PDFDOC_EXTRA[ch])
+        elif ch in _PDFDOC_ACCENTS:
+            out.append(0x18 + _PDFDOC_ACCENTS.index(ch))
+        elif o <= 0x17 and o != 0x16:
+            # control codes stand for themselves (Annex D.2); 0x16 is left out: Adobe's table lists U+0017 at both
+            # 0x16 and 0x17, so U+0016 has no agreed encoding
+            out.append(o)
         elif 0x20 <= o <= 0x7E or 0xA1 <= o <= 0xFF and o != 0xAD:
             out.append(o)
         else:
@@ -428,7 +438,8 @@ def enc_value(o: Any, num: int, gen: int, h: Optional[Handler], hexstr: bool, lo
 
 
 def write_pdf(doc: Plain, h: Optional[Handler], layout: str = "table", objstm: Sequence[int] = (), encrypt_indirect: bool = False,
-              hexstr: bool = False, header: bytes = b"%PDF-1.7\n%\xe2\xe3\xcf\xd3\n", xref_flate: bool = False) -> Tuple[bytes, Dict[str, Any]]:
+              hexstr: bool = False, header: bytes = b"%PDF-1.7\n%\xe2\xe3\xcf\xd3\n", xref_flate: bool = False,
+              W: Tuple[int, int, int] = (1, 4, 2)) -> Tuple[bytes, Dict[str, Any]]:
     """Serialise ``doc`` (encrypted with ``h`` if given).  layout 'table': classic xref + trailer;
     'xrefstm': cross-reference stream, objects listed in ``objstm`` packed (unencrypted inside) into one
     object stream which is encrypted as a whole.  Returns (bytes, info) where info has the numbers of the
@@ -492,7 +503,7 @@ def write_pdf(doc: Plain, h: Optional[Handler], layout: str = "table", objstm: S
     entries[xnum] = (1, len(out), 0)
     entries[0] = (0, 0, 65535)
     info["xref"] = xnum
-    xs = xref_stream_obj(entries, {"Type": N("XRef"), "Size": xnum + 1, **tr}, W=(1, 4, 2), flate=xref_flate)
+    xs = xref_stream_obj(entries, {"Type": N("XRef"), "Size": xnum + 1, **tr}, W=W, flate=xref_flate)
     # the cross-reference stream is never encrypted (7.5.8.2): this is what any reader must get back from it
     info["xref_data"] = zlib.decompress(xs.data) if xref_flate else xs.data
     body = bytes(out)
